@@ -335,11 +335,22 @@ func c13Limit(c *Ctx) {
 			}
 			names := make([]string, n)
 			var stream []byte
+			var ends []int
 			for i := 0; i < n; i++ {
 				names[i] = fmt.Sprintf("ok-d1200-lim%s%dq%d.pipe.test.", listener, round, i)
 				stream = append(stream, dnsclient.Frame(mkQuery(uint16(100+i), names[i], dns.TypeA, dns.ClassINET, false))...)
+				ends = append(ends, len(stream))
 			}
-			cl.WriteRaw(stream)
+			if round%2 == 1 {
+				// the segment that carries the queries beyond the limit ends inside the frame after them
+				// (in its length prefix, or in its body); the rest follows 30 ms later
+				cut := ends[7] + []int{1, 2, 9}[round/2%3]
+				cl.WriteRaw(stream[:cut])
+				time.Sleep(30 * time.Millisecond)
+				cl.WriteRaw(stream[cut:])
+			} else {
+				cl.WriteRaw(stream)
+			}
 			cl.WaitFrames(n, 12*time.Second)
 			time.Sleep(100 * time.Millisecond)
 			frames := cl.Frames()
